@@ -41,3 +41,61 @@ def t_item(x=0, *a, **k):
 
 def t_state(worker_ref=None):
     return 1
+
+
+# ---- C16: workers whose target assigns user_state. The mixin only publishes the worker object; the targets
+# t_s* assign (after their first line = the model's pseudo line event) and then return / raise.
+CURRENT = None
+
+
+class StateMixin:
+    def run(self, *args, **kwargs):
+        global CURRENT
+        CURRENT = self
+        return super().run(*args, **kwargs)
+
+
+def t_sret(*a, **k):
+    x = 7
+    CURRENT.user_state = 11
+    CURRENT.user_state = 12
+    return x
+
+
+def t_sslow(*a, **k):
+    x = 7
+    CURRENT.user_state = 11
+    CURRENT.user_state = 12
+    for _ in range(300):
+        time.sleep(0.01)
+    return x
+
+
+def t_sraise(*a, **k):
+    x = 7
+    CURRENT.user_state = 11
+    CURRENT.user_state = 12
+    raise ValueError('x', 1)
+
+
+def t_sbase(*a, **k):
+    x = 7
+    CURRENT.user_state = 11
+    CURRENT.user_state = 12
+    raise KeyboardInterrupt('stop')
+
+
+def _mk():
+    from pyworkers.thread import ThreadWorker
+    from pyworkers.process import ProcessWorker
+    from pyworkers.remote import RemoteWorker
+    from pyworkers.persistent_thread import PersistentThreadWorker
+    from pyworkers.persistent_process import PersistentProcessWorker
+    from pyworkers.persistent_remote import PersistentRemoteWorker
+    g = globals()
+    for base in (ThreadWorker, ProcessWorker, RemoteWorker, PersistentThreadWorker, PersistentProcessWorker, PersistentRemoteWorker):
+        name = 'S' + base.__name__
+        g[name] = type(name, (StateMixin, base), {'__module__': __name__})
+
+
+_mk()
